@@ -504,7 +504,7 @@ def plan_cases(cells, combos, thorough, rng):
     return cases
 
 
-def make_cases(plan, rng, tz, read2_every=1):
+def make_cases(plan, rng, tz, read2_every=1, shard_cases=150):
     """concretise; assign DSN shards and row keys"""
     out = []
     counters = {}
@@ -521,23 +521,61 @@ def make_cases(plan, rng, tz, read2_every=1):
         grp = ("r" if rowid else "p") + c["type"]
         cnt = counters.get(grp, 0)
         counters[grp] = cnt + 1
-        shard = cnt // 350
+        shard = cnt // shard_cases
         dsn = "%s%s%d" % (grp, tz[0].lower(), shard)
         out.append({"id": n, "type": c["type"], "kind": kind, "cls": c["cls"], "form": c["form"], "path": path, "shape": shape,
                     "nullv": nullv, "tz": tz, "selftest": False, "has2": n % read2_every == 0, "vtext": vt, "seedtext": render_value(seed, kind, sform, rng),
-                    "dsn": dsn, "rowid": rowid, "k": 10 + 2 * (cnt % 350)})
+                    "dsn": dsn, "rowid": rowid, "k": 10 + 2 * (cnt % shard_cases)})
     return out
 
 
+def _fd_budget():
+    """requests one server process may serve: ReadRows/UpdateRows never close their database handle, so the real server
+    leaks about one descriptor per request (observed: EMFILE after 18 168 sessions at ulimit 20 000); the driver therefore
+    works in waves, one fresh server process per wave"""
+    try:
+        import resource
+        soft, hard = resource.getrlimit(resource.RLIMIT_NOFILE)
+        if hard != resource.RLIM_INFINITY and soft < hard:
+            resource.setrlimit(resource.RLIMIT_NOFILE, (hard, hard))
+            soft = hard
+        if soft == resource.RLIM_INFINITY:
+            soft = 65536
+    except Exception:
+        soft = 1024
+    return max(300, int(soft * 0.4))
+
+
 def execute(sd, ego, cases, tz, nthreads):
-    """one server per time zone; DSN shards are independent SQLite files, one worker thread each at a time"""
+    """one server process per wave and time zone; DSN shards are independent SQLite files, one worker thread each at a time"""
     if not cases:
         return []
+    groups = {}
+    for c in cases:
+        groups.setdefault(c["dsn"], []).append(c)
+    budget = _fd_budget()
+    waves, cur, cost = [], [], 0
+    for item in sorted(groups.items(), key=lambda kv: -len(kv[1])):
+        need = 6 + 6 * len(item[1])
+        if cur and cost + need > budget:
+            waves.append(cur)
+            cur, cost = [], 0
+        cur.append(item)
+        cost += need
+    if cur:
+        waves.append(cur)
+    recs = []
+    for w, wave in enumerate(waves):
+        recs.extend(_run_wave(sd, ego, wave, tz, nthreads, w))
+    return recs
+
+
+def _run_wave(sd, ego, wave, tz, nthreads, w):
     env = {"TZ": tz}
     # generous transport timeouts: the defaults (10 s headers, 30 s request) are wall-clock and trip on an overloaded machine
     slow = {"ego.server.read.timeout": "600s", "ego.server.read.header.timeout": "600s", "ego.server.write.timeout": "600s",
             "ego.server.idle.timeout": "600s"}
-    srv = egosrv.Server(sd, ego, env=env, settings=slow, name="srv-" + re.sub(r"\W", "_", tz))
+    srv = egosrv.Server(sd, ego, env=env, settings=slow, name="srv-%s-%d" % (re.sub(r"\W", "_", tz), w))
     srv.start(wait=90)
     try:
         tok = None
@@ -552,9 +590,6 @@ def execute(sd, ego, cases, tz, nthreads):
             time.sleep(1)
         if not tok:
             raise vf.NoVerdict("cannot log on to the scratch server")
-        groups = {}
-        for c in cases:
-            groups.setdefault(c["dsn"], []).append(c)
         recs = []
         lock = threading.Lock()
 
@@ -569,12 +604,15 @@ def execute(sd, ego, cases, tz, nthreads):
             with lock:
                 recs.extend(mine)
         with ThreadPoolExecutor(max_workers=nthreads) as ex:
-            list(ex.map(work, sorted(groups.items(), key=lambda kv: -len(kv[1]))))
+            list(ex.map(work, wave))
         if not srv.alive():
             raise vf.NoVerdict("the scratch server died during the run\n" + srv.log_text()[-2000:])
         return recs
     finally:
         srv.stop()
+        if not os.environ.get("VERIF_KEEP"):
+            import shutil
+            shutil.rmtree(srv.dir, ignore_errors=True)
 
 
 def corrupt(rec, rng):
@@ -643,10 +681,11 @@ def run():
         else:
             plan = plan_cases(cells, combos, thorough, rng)
             every = 1 if thorough else 2
-            cases_utc = make_cases(plan, rng, "UTC", every)
+            shard_cases = min(150, max(20, _fd_budget() // 12))
+            cases_utc = make_cases(plan, rng, "UTC", every, shard_cases)
             tplan = [p for p in plan if p[0]["kind"] in ("timestamp", "date", "time")]
             tplan = [p for i, p in enumerate(tplan) if i % (2 if thorough else 4) == vf.SEED % 2]
-            cases_ny = make_cases(tplan, rng, "America/New_York", every)
+            cases_ny = make_cases(tplan, rng, "America/New_York", every, shard_cases)
             for c in cases_ny:
                 c["id"] += len(cases_utc)
         ov = vf.make_overlay(sd, [])
